@@ -59,7 +59,7 @@ Devs(e) ==
   (IF m.class = "loop" \/ L!Total(src, m) THEN {} ELSE { <<"model outcome violates the contract", m>> })
   \cup (IF m.class # e.res.class THEN { <<"outcome class # model", <<e.res.class, m>> >> }
         ELSE IF m.class = "err"
-        THEN (IF ErrList(e.res.errors) = m.errors THEN {} ELSE { <<"errors # model", <<ErrList(e.res.errors), m.errors>> >> })
+        THEN (IF ErrList(e.res.errors) = m.errors THEN {} ELSE { <<"INFO: errors # model (both reject the text)", <<ErrList(e.res.errors), m.errors>> >> })
         ELSE LET ir == [i \in 1 .. Len(e.res.def.rules) |-> IRule(e.res.def.rules[i])]
                  mr == [i \in 1 .. Len(m.rules) |-> MRule(m.rules[i])]
                  is == [i \in 1 .. Len(e.res.def.states) |-> IState(e.res.def.states[i])]
